@@ -144,6 +144,23 @@ func checkC09(r *Result) {
 				}
 			}
 			r.check(okBack, "TABLE", "(x/oracle/keeper.Keeper).AllocateRewards # every reporter of every aggregate stores its table entry under its address", pos(calc.Pos()), whyBack)
+			// every entry of the table is credited: each iteration of the payout loop passes AllocateTip
+			okPay, whyPay := false, "no payout loop found"
+			for _, cs := range P.CallSitesIn(ar) {
+				if cs.Callee == "(x/oracle/keeper.Keeper).AllocateTip" {
+					if h := innermostLoopHeader(ar, cs.Instr.Block()); h != nil {
+						okPay, whyPay = iterationPasses(ar, h, func(in ssa.Instruction) bool {
+							c, ok := in.(ssa.CallInstruction)
+							if !ok {
+								return false
+							}
+							s := P.siteOf(c)
+							return s != nil && s.Callee == "(x/oracle/keeper.Keeper).AllocateTip"
+						})
+					}
+				}
+			}
+			r.check(okPay, "REMAINDER", "(x/oracle/keeper.Keeper).AllocateRewards # every reporter of the table is credited its part (no iteration of the payout loop skips AllocateTip)", pos(calc.Pos()), whyPay)
 		}
 		// TABLE: stores into ReportersReportCount fields
 		stores := map[string][]string{}
